@@ -316,56 +316,9 @@ def export_orders(res, seed, shard, tier):
 
 
 def threaded_saves(res, seed, shard, tier):
-    """Several threads, each constructing and saving ITS OWN objects (no loads: the strictness switch is process-wide by
-    design), with the interpreter switching threads as often as it can: every save gives the bytes the same object gave
-    when the process had one thread."""
-    import sys
-    import threading
-    import rv.api as api
-    from rv.modules import MODULE_CLASSES
-    objs = []
-    for i in range(6):
-        try:
-            c = workload.project_case(seed, 930000 + shard * 10 + i, tier)
-            objs.append(c.obj)
-        except Exception:
-            res.count("threaded_case_unusable")
-    if len(objs) < 2:
-        return
-    classes = [cls for _mt, cls in sorted(MODULE_CLASSES.items()) if cls.__name__ != "Output"]
-    monitors.PURITY_ENABLED = False          # (the ambient monitor's own bookkeeping is not thread-safe)
-    try:
-        want = [o.read() for o in objs]
-        want_fresh = {cls.__name__: api.Synth(cls()).read() for cls in classes}
-        bad = []
-
-        def work(k):
-            o = objs[k]
-            for r in range(6):
-                if o.read() != want[k]:
-                    bad.append(("project", k, r))
-                    return
-                cls = classes[(k * 7 + r * 3) % len(classes)]
-                if api.Synth(cls()).read() != want_fresh[cls.__name__]:
-                    bad.append(("fresh " + cls.__name__, k, r))
-                    return
-        old = sys.getswitchinterval()
-        sys.setswitchinterval(1e-6)
-        try:
-            ts = [threading.Thread(target=work, args=(k,)) for k in range(len(objs))]
-            for t in ts:
-                t.start()
-            for t in ts:
-                t.join()
-        finally:
-            sys.setswitchinterval(old)
-    finally:
-        monitors.PURITY_ENABLED = True
-    res.count("threaded_save_rounds", len(objs) * 6)
+    from .. import threadtasks
+    threadtasks.free_running_saves(res, "C05", seed, shard, tier)
     res.count("purity_evaluations")
-    if bad:
-        res.violation("C05:two-saves-differ:threads", f"{len(objs)} threads each saving their own objects: {bad[0][0]} of thread {bad[0][1]} gave different bytes in round {bad[0][2]} "
-                                                      f"than it gave single-threaded", {"family": "threaded-saves", "threads": len(objs)})
 
 
 def run_shard(spec_, res):
